@@ -57,11 +57,18 @@ struct ReadAll {
 }
 
 fn read_all(data: Vec<u8>, cuts: Vec<usize>, max: u64) -> ReadAll {
+    read_all_on(data, cuts, max, false)
+}
+
+/// `tcp`: through the reader's plain-TCP arm (a stand-in read half with tokio's readiness semantics: `readable()`
+/// may return although nothing can be read, the flag is only cleared by a read that finds the socket empty)
+fn read_all_on(data: Vec<u8>, cuts: Vec<usize>, max: u64, tcp: bool) -> ReadAll {
     let requested = Arc::new(Mutex::new(Vec::new()));
     let r2 = requested.clone();
     let res = std::panic::catch_unwind(std::panic::AssertUnwindSafe(move || {
         futures::executor::block_on(async move {
-            let mut rd = VerifFrameReader::new(Box::new(Scripted { data, cuts, pos: 0, armed: false, requested: r2, polls: 0 }));
+            let scripted = Box::new(Scripted { data, cuts, pos: 0, armed: false, requested: r2, polls: 0 });
+            let mut rd = if tcp { VerifFrameReader::new_tcp(scripted) } else { VerifFrameReader::new(scripted) };
             let mut frames = Vec::new();
             for _ in 0..64 {
                 match rd.read(max).await {
@@ -218,6 +225,10 @@ fn sample_messages() -> Vec<proto::NetworkMessage> {
 }
 
 fn frames_all_splits(ctx: &EnumCtx, max_cuts_for_pairs: usize) -> EnumResult {
+    frames_all_splits_on(ctx, max_cuts_for_pairs, false)
+}
+
+fn frames_all_splits_on(ctx: &EnumCtx, max_cuts_for_pairs: usize, tcp: bool) -> EnumResult {
     let mut res = EnumResult::default();
     let msgs = sample_messages();
     let enc = |m: &proto::NetworkMessage| {
@@ -238,7 +249,7 @@ fn frames_all_splits(ctx: &EnumCtx, max_cuts_for_pairs: usize) -> EnumResult {
         }
     }
     let mut check = |data: &Vec<u8>, want: &Vec<proto::NetworkMessage>, cuts: Vec<usize>, res: &mut EnumResult| {
-        let r = read_all(data.clone(), cuts.clone(), 64);
+        let r = read_all_on(data.clone(), cuts.clone(), 64, tcp);
         res.evaluations += 1;
         res.states += 1;
         res.transitions += r.requested.len() as u64;
@@ -295,7 +306,7 @@ fn frames_all_splits(ctx: &EnumCtx, max_cuts_for_pairs: usize) -> EnumResult {
         }
     }
     res.exhaustive = true;
-    res.note = format!("5 single frames under every fragmentation; 25 two-frame streams under every fragmentation with <= {max_cuts_for_pairs} cuts; a Pending before every read");
+    res.note = format!("5 single frames under every fragmentation; 25 two-frame streams under every fragmentation with <= {max_cuts_for_pairs} cuts; a Pending before every read{}", if tcp { "; through the plain-TCP arm of the reader (stand-in read half, tokio readiness semantics)" } else { "" });
     res
 }
 
@@ -770,6 +781,7 @@ pub fn plan(tier: &str) -> Plan {
     units.push(Unit::enumerate("frames/boundary-headers", 1, Arc::new(frames_boundary_headers)));
     let pair_cuts = if thorough { 4 } else { 3 };
     units.push(Unit::enumerate("frames/all-fragmentations", 10, Arc::new(move |c: &EnumCtx| frames_all_splits(c, pair_cuts))));
+    units.push(Unit::enumerate("frames/all-fragmentations/plain-tcp-arm", 10, Arc::new(move |c: &EnumCtx| frames_all_splits_on(c, pair_cuts, true))));
     let dec_len = if thorough { 8 } else { 6 };
     units.push(Unit::enumerate("decoders/derived-enum", 16, Arc::new(move |c: &EnumCtx| decoders(c, dec_len))));
     units.push(Unit::enumerate("roundtrip/bytes-convertable", 1, Arc::new(round_trips)));
